@@ -240,17 +240,74 @@ def job_dsm(tier, seed):
     return ck.export()
 
 
+def job_generator(tier, seed):
+    """the test generator's reading of ar/arp words vs the interpreter's: when the generator marks ArRn slot i (ArpRn slot i)
+    as a memory operand it pins r[(ar >> ..) & 7] (r[(arp >> 10) & 3], r[((arp >> 13) & 3) + 4]) into the X / Y test window;
+    the register the *interpreter* addresses through for that slot - arrn[i] (arprni[i], arprnj[i] + 4) as decoded by Set<ar/arp>
+    in the verifier's loader - must be that register: its effective address (RnAddress: bit-reversed when br && !m) lies in
+    the window. Generator state and loader come from checks/c01b (real GenerateRandomState, real loader)."""
+    from checks import c01b
+    E = env()
+    ck = core.Check('C20', 'model_checking', tier, seed)
+    ex, st0, ctx = E.base()
+    try:
+        g = c01b.gen_env()
+        ld = c01b.loader_env()
+    except Exception as x:
+        ck.inconclusive.append('generator pins: %s' % str(x)[:200])
+        return ck.export()
+    regsI = ctx['regs']
+    stL = st0.fork()
+    for f, t in ld['regs'].items():
+        nm, i = (f[:f.index('[')], int(f[f.index('[') + 1:-1])) if '[' in f else (f, 0)
+        regsI.set(stL, nm, t, i)
+    link = [ld['SV'][f] == g['S'][f] for f in ld['SV']]
+    # configurations the handlers can return: lock_r7 comes only from ConfigWithMemR7Imm16/Imm7s, which start from AnyConfig and
+    # carry no register pins (lock_r7 overwrites r7 after the pin loop, without the bit-reverse adjustment); the configurations
+    # the handlers really return are quantified row by row in C01's Generator[row] obligations
+    A0 = g['A'] + link + [g['cfgv']['lock_r7'] == 0]
+    AL = g['A'] + link
+    LR = ld['regs']
+
+    def eff(k):
+        r = ex.call(stL.fork(), '@k_rnaddr', [ctx['interp'], k, z3.ZeroExt(16, bv(LR['r[%d]' % k], 16))])
+        return bv(r[1], 16)
+    EFF = [eff(k) for k in range(8)]
+    win = lambda k, a: z3.And(z3.UGE(a, (c01b.XLO if k < 4 else c01b.YLO) + 10), z3.ULE(a, (c01b.XLO if k < 4 else c01b.YLO) + c01b.WSZ - 10))
+    vars_ = {'state.' + f: t for f, t in ld['SV'].items()}
+    vars_.update({'cfg.' + f: t for f, t in g['cfgv'].items()})
+    for i in range(8):
+        ck.prove('GeneratorPins[r%d]' % i, A0 + [g['cfgv']['r[%d]' % i] == 1], win(i, EFF[i]), vars=vars_,
+                 sample='Config.r[%d] == Memory: the address the interpreter forms from r%d (bit-reversed when br && !m) lies in the %s window with a margin of 10' % (i, i, 'X' if i < 4 else 'Y') if i in (0, 7) else None)
+    for i in range(4):
+        unit = bv(LR['arrn[%d]' % i], 16)
+        goal = z3.And(*[z3.Implies(unit == k, win(k, EFF[k])) for k in range(8)] + [z3.ULT(unit, 8)])
+        ck.prove('GeneratorPins[ArRn slot %d]' % i, A0 + [g['cfgv']['ar[%d]' % i] == 1], goal, vars=vars_,
+                 sample='Config.ar[%d] == Memory: the register Set<ar%d> makes ArRn slot %d select (arrn[%d]) is the one the generator pinned into its window' % (i, i // 2, i, i))
+    for i in range(4):
+        ui, uj = bv(LR['arprni[%d]' % i], 16), bv(LR['arprnj[%d]' % i], 16)
+        goal = z3.And(*[z3.Implies(ui == k, win(k, EFF[k])) for k in range(4)] + [z3.Implies(uj == k, win(k + 4, EFF[k + 4])) for k in range(4)] + [z3.ULT(ui, 4), z3.ULT(uj, 4)])
+        ck.prove('GeneratorPins[ArpRn slot %d]' % i, A0 + [g['cfgv']['arp[%d]' % i] == 1], goal, vars=vars_,
+                 sample='Config.arp[%d] == Memory: both registers Set<arp%d> selects (arprni -> r0..r3, arprnj -> r4..r7) are the ones the generator pinned' % (i, i))
+    ck.prove('GeneratorPins[lock_r7]', AL + [g['cfgv']['lock_r7'] == 1], z3.And(z3.UGE(bv(LR['r[7]'], 16), c01b.YLO + 10), z3.ULE(bv(LR['r[7]'], 16), c01b.YLO + c01b.WSZ - 10)), vars=vars_)
+    ck.prove('GeneratorPins[lock_page]', A0 + [g['cfgv']['lock_page'] == 1], bv(LR['page'], 16) == (c01b.XLO >> 8), vars=vars_,
+             sample='Config.lock_page: the page the loader installs from mod1 is the page of the X window')
+    ck.nstates += 26
+    return ck.export()
+
+
 def run(tier, seed):
     ck = core.Check('C20', 'model_checking', tier, seed)
     E = env()
     ck.funcs.update(['RegisterState::Get<W>/Set<W> for W in ' + ','.join(PR.ORDER), 'PseudoRegister/ProxySlot/Redirector/ArrayRedirector/DoubleRedirector/RORedirector/AccEProxy/LPRedirector templates',
-                     'Disassembler::DsmArRn/DsmArStep/DsmArpRni/DsmArpRnj/DsmArpStepi/DsmArpStepj'])
+                     'Disassembler::DsmArRn/DsmArStep/DsmArpRni/DsmArpRnj/DsmArpStepi/DsmArpStepj', 'Config::GenerateRandomState (ar/arp decoding of the test generator)', 'test_verifier loader (Set<ar0..arp3>)', 'Interpreter::RnAddress'])
     ck.assumptions += ['pre-state satisfies Inv (fields within hardware widths); Inv is re-proved after every Set<W>',
                        'layout oracle: spec/pseudo_regs.py (transcribed bit positions; the statement of C20 defines the slot kinds)',
                        'disassembler: std::to_string / ConvertArStepAndOffset calls are observed as events (their integer argument), the name strings themselves are data and not checked']
     ck.bounds += ['all 2^16 written values x all register states: no bound']
     res = core.pmap(job_word, [(w, tier, seed) for w in PR.ORDER])
     res += core.pmap(job_dsm, [(tier, seed)])
+    res += [core._job((job_generator, (tier, seed)))]
     for r in res:
         if '__error__' in r:
             ck.engine_errors.append(r['__error__'])
